@@ -13,9 +13,12 @@
 namespace {
 
 // value type with a non-trivial lifetime: a listener that is handed a value whose lifetime has ended reads the poison
+struct Boom {};
+struct CtorFailed {};
 struct Val {
     int v, chk;
     Val(long x) : v((int)x), chk(~(int)x) {}  // in-place construction through the collector's (Args&&...) overload
+    Val(Boom) : v(0), chk(0) { throw CtorFailed(); }  // a value whose construction fails: nothing is emitted, nobody is lost
     Val(const Val &) = default;
     Val &operator=(const Val &) = default;
     ~Val() {
@@ -303,6 +306,12 @@ static void run_case(seqx::Runner &R, const std::vector<int> &seq) {
                     break;
                 }
                 case CALL_RV: {
+                    // first an emission whose value cannot be constructed: the caller gets the exception, no listener is
+                    // resumed, forgotten or disconnected by it (the model does not move)
+                    try {
+                        (*w->col)(Boom{});  // (not constructing the value at all when nobody listens would be fine too)
+                    } catch (const CtorFailed &) {
+                    }
                     w->stored_ref = nullptr;
                     w->capture = true;
                     Val v(next_val++);
